@@ -75,14 +75,25 @@ Theorem C17_close_final : forall evs s, all_exited s -> all_exited (r_run evs s)
 Proof. exact close_final. Qed.
 Print Assumptions C17_close_final.
 
-(* the state Close leaves behind (every watcher returned, every pool's session closed, nothing parked —
-   since the repair of Close, which now closes the parked pools too) is final: over every further history
-   no session is created, neither by a watcher nor by the hot-restart handler (no pool object is added;
-   an event needs a live session of the manager to arrive on) *)
-Theorem C17_close_end_quiesces : forall s, r_enabled s CloseEnd = true -> Quiesced (r_step s CloseEnd).
-Proof. exact close_end_quiesces. Qed.
-Print Assumptions C17_close_end_quiesces.
+(* ---- Close returned.  SessionManager.Close is modelled statement by statement IN THE ORDER OF THE CODE
+   (cancelFunc; wg.Wait; then in one critical section of sm's lock: pools[i].close(), parked pools closed),
+   and the hot-restart handler returns at once when the context is cancelled.  For ALL histories: whenever
+   Close has returned, every watcher has returned, every pool's session is closed and nothing is parked.
+   The proof uses the order of the statements: wg.Wait returns only when every watcher has returned, so a
+   watcher that was past its timer has stored its replacement session BEFORE the pools are closed.
+   (Before the repair of the handler / of Close's locking this needed the hypothesis "no hot-restart event
+   after cancel" and was refuted without it; that history is the regression scenario "closerace".) *)
+Theorem C17_close_returned_full : forall n evs,
+  cprog (r_run evs (r_init n)) = [] -> Quiesced (r_run evs (r_init n)).
+Proof. exact close_returned. Qed.
+Print Assumptions C17_close_returned_full.
 
+Theorem C17_hr_event_after_cancel : forall s i e ok, closed s = true -> r_step s (HREvent i e ok) = s.
+Proof. exact hr_event_after_cancel. Qed.
+Print Assumptions C17_hr_event_after_cancel.
+
+(* that state is final: over every further history no session is created, neither by a watcher nor by
+   the hot-restart handler (no pool object is added; an event needs a live session of the manager) *)
 Theorem C17_close_quiesced_forever : forall evs s, Quiesced s ->
   Quiesced (r_run evs s) /\ created (r_run evs s) = created s /\ length (objs (r_run evs s)) = length (objs s).
 Proof. exact close_quiesced_forever. Qed.
@@ -124,6 +135,26 @@ Proof. vm_compute. repeat split. Qed.
 
 (* Close while a rebuild is pending: the watcher leaves without dialling *)
 Example C17_example_close :
-  let s := r_run [WLoad 0; SessionLost 0; WakeClose 0; CloseBegin; TimerFires 0; WakeCtx 0; Compare 0 true; CloseEnd] (r_init 1) in
-  created s = 0%nat /\ map w_pc (watchers s) = [WExit] /\ get_stream_r s 0 = GsErr.
+  let s := r_run [WLoad 0; SessionLost 0; WakeClose 0; CloseStep; TimerFires 0; WakeCtx 0; Compare 0 true; CloseStep; CloseStep] (r_init 1) in
+  created s = 0%nat /\ map w_pc (watchers s) = [WExit] /\ get_stream_r s 0 = GsErr /\ cprog s = [].
+Proof. vm_compute. repeat split. Qed.
+
+(* Close while the rebuild dial is in flight (timer fired before cancel).  Order of the code: wg.Wait is
+   not enabled until the watcher has stored the replacement and returned, the pools are closed after
+   that: Close returns with the pool's session closed.  Seeded order (pools closed before wg.Wait): the
+   same events end with Close returned and a LIVE session in the pool, GetStream succeeds. *)
+Example C17_example_close_order :
+  let mid := r_run inflight_history (r_init 1) in
+  let good := r_run (inflight_history ++ [CloseStep]) (r_init 1) in
+  let seeded := r_run inflight_history (r_init_prog seeded_close_prog 1) in
+  (* code order: after the same events Close has only got past wg.Wait; its closing section follows *)
+  cprog mid = [CCloseAll] /\ cprog good = [] /\ get_stream_r good 0 = GsErr /\ created good = 1%nat /\
+  cprog seeded = [] /\ get_stream_r seeded 0 = GsOk /\ created seeded = 1%nat /\
+  map w_pc (watchers seeded) = [WExit].
+Proof. vm_compute. repeat split. Qed.
+
+(* a hot-restart event arriving on a parked session after cancel: ignored, Close closes everything *)
+Example C17_example_close_race :
+  let s := r_run close_race_history (r_init 1) in
+  cprog s = [] /\ get_stream_r s 0 = GsErr /\ length (objs s) = 2%nat.
 Proof. vm_compute. repeat split. Qed.
